@@ -445,13 +445,17 @@ func init() {
 				out = append(out, Inst{Pkg: "knx", Fn: "HarnessC12In", Args: []int64{kind, n}})
 			}
 		}
+		for _, p := range [][2]int64{{15, 16}, {16, 15}, {0, 254}, {254, 1}} {
+			out = append(out, Inst{Pkg: "knx", Fn: "HarnessC12OutSeq", Args: []int64{0, p[0], p[1]}, Unwind: 2000, NoNative: true},
+				Inst{Pkg: "knx", Fn: "HarnessC12OutSeq", Args: []int64{1, p[0], p[1]}, Unwind: 2000, NoNative: true})
+		}
 		return out
 	}
 	reg(&Spec{
 		ID:       "C12",
 		Quick:    func(l *loaded) []Inst { return c12(false) },
 		Thorough: func(l *loaded) []Inst { return c12(true) },
-		Covers:   []string{"C12.out.end", "C12.in.surfaced", "C12.in.filtered", "C12.e2e.end"},
+		Covers:   []string{"C12.out.end", "C12.in.surfaced", "C12.in.filtered", "C12.e2e.end", "C12.outseq.end"},
 		Bounds:   "outbound: all three commands, every source/destination/payload byte symbolic, payload lengths {0,1,2,15,16,254} (thorough 0..254), through GroupTunnel.Send (TCP-mode tunnel on the in-memory socket) and GroupRouter.Send; inbound: one message of every cEMI kind (L_Data req/con/ind with application or control unit, L_Raw x3, L_Busmon, unsupported) with all fields symbolic fed to the real serveGroupInbound goroutine, all interleavings of the three goroutines; end to end through knxnet.Pack/Unpack",
 		Outside:  "payloads above 254 bytes; more than one message per inbound run (ordering is C17)",
 	})
